@@ -836,8 +836,9 @@ class TrigTime:
                     if (now < start or startup) and (next_time is None or start < next_time):
                         next_time_adj = next_time = start
                     if now >= start and not startup:
-                        secs = period * (1.0 + math.floor((now - start).total_seconds() / period))
-                        this_t = start + dt.timedelta(seconds=secs)
+                        period_us = round(period * 1000000)
+                        elapsed_us = (now - start) // dt.timedelta(microseconds=1)
+                        this_t = start + dt.timedelta(microseconds=period_us * (1 + elapsed_us // period_us))
                         if now < this_t and (next_time is None or this_t < next_time):
                             next_time_adj = next_time = this_t
                     continue
@@ -856,8 +857,9 @@ class TrigTime:
                         if next_time is None or start < next_time:
                             next_time_adj = next_time = start
                         break
-                    secs = period * (1.0 + math.floor((now - start).total_seconds() / period))
-                    this_t = start + dt.timedelta(seconds=secs)
+                    period_us = round(period * 1000000)
+                    elapsed_us = (now - start) // dt.timedelta(microseconds=1)
+                    this_t = start + dt.timedelta(microseconds=period_us * (1 + elapsed_us // period_us))
                     if start <= this_t <= end:
                         if next_time is None or this_t < next_time:
                             next_time_adj = next_time = this_t
